@@ -49,9 +49,11 @@ def check(ctx):
                                {"pkg": "c03launch", "sub": "launch", "kinds": ["C03:launch:"], "coq": False},
                                # C09's persistence harness, run here for its C03 monitor only: a recovering incarnation handles
                                # its OnLaunch before the replayed snapshot and events
-                               {"pkg": "c09persist", "sub": "persist", "kinds": ["C03:persist:"], "coq": False}],
+                               {"pkg": "c09persist", "sub": "persist", "kinds": ["C03:persist:"], "coq": False},
+                               # a provider that fails while a restart is completed (outside the kernel model): traces stay well-formed
+                               {"pkg": "c03prov", "sub": "prov", "kinds": ["C03:provider:"], "coq": False}],
                    extra_trusted=TURNS_TRUSTED, extra_dirs=["C01"])
 
 
 def replay(ctx, path):
-    return K.replay(ctx, path, extra_pkgs={"turns": "c01turns", "launch": "c03launch", "persist": "c09persist"})
+    return K.replay(ctx, path, extra_pkgs={"turns": "c01turns", "launch": "c03launch", "persist": "c09persist", "prov": "c03prov"})
